@@ -304,9 +304,12 @@ impl Tablet {
         let mut any_updated = false;
         for (node, _) in self.replicas.all.iter_mut() {
             if let Some(new_node) = recreated_nodes.get(&node.host_id) {
-                assert!(!Arc::ptr_eq(new_node, node));
-                any_updated = true;
-                *node = Arc::clone(new_node);
+                // The replica may already be the re-created node: replicas that were
+                // re-resolved during this maintenance come from the current nodes.
+                if !Arc::ptr_eq(new_node, node) {
+                    any_updated = true;
+                    *node = Arc::clone(new_node);
+                }
             }
         }
 
